@@ -454,6 +454,14 @@ def install():
             if not hasattr(mod, n):
                 raise MachineryError(f"{mod.__name__} no longer has the name {n!r}: the OS-level seam of the backend checks does not apply")
     _register_faults()
+    # NetworkBackend.sleep (used by the sync backend for the retry pauses) calls time.sleep
+    from httpcore._backends import base as b_base
+    if not hasattr(b_base, "time"):
+        raise MachineryError("httpcore._backends.base no longer has the name 'time': the sleep seam does not apply")
+    import time as real_time
+    tns = types.SimpleNamespace(**{k: getattr(real_time, k) for k in dir(real_time) if not k.startswith("__")})
+    tns.sleep = lambda seconds: CURRENT[0].sleep(seconds) if CURRENT[0] is not None else None
+    b_base.time = tns
     b_sync.socket = _socket_namespace()
     b_sync.ssl = _ssl_namespace()
     b_sync.is_socket_readable = _is_readable
